@@ -4,7 +4,7 @@ For each one, revert it in a scratch worktree, run the check of the property it 
 (known_findings.json 'fixed:' lines) against that worktree (VF_REPO), and expect a VIOLATION.
 Also applies the hand-written patches under selftest/*.diff and the seeded changes under seeded/*/patch.diff.
 
-usage: lib/selftest.py [--only C07,C14] [--seeded] [--fixes]
+usage: lib/selftest.py [--only C07,C14] [--name substr,substr] [--seeded] [--fixes]
 Writes selftest/RESULTS.json. Never touches /repo's working tree."""
 import json, os, re, subprocess, sys, shutil, time
 
@@ -17,7 +17,7 @@ def sh(*a, **kw):
 
 
 def run_check(prop):
-    env = dict(os.environ, VF_REPO=WT)
+    env = dict(os.environ, VF_REPO=WT, VF_EVIDENCE_DIR="/tmp/vf-selftest-evidence", VF_REPLAY_DIR="/tmp/vf-selftest-replays")
     t0 = time.time()
     r = sh(os.path.join(VERIF, "vf"), "check", prop, cwd=VERIF, env=env)
     sigs = sorted(set(re.findall(r"sig=(\S+)", r.stdout)))
@@ -25,6 +25,9 @@ def run_check(prop):
 
 
 def main():
+    names = None
+    if "--name" in sys.argv:
+        names = sys.argv[sys.argv.index("--name") + 1].split(",")
     only = None
     if "--only" in sys.argv:
         only = set(sys.argv[sys.argv.index("--only") + 1].split(","))
@@ -82,6 +85,8 @@ def main():
                 prop = meta["property"]
                 if only and prop not in only:
                     continue
+                if names and not any(n in name for n in names):
+                    continue
                 sh("git", "-C", WT, "reset", "--hard", "HEAD")
                 ap = sh("git", "-C", WT, "apply", patch)
                 if ap.returncode != 0:
@@ -101,8 +106,9 @@ def main():
     os.makedirs(os.path.join(VERIF, "selftest"), exist_ok=True)
     out = os.path.join(VERIF, "selftest", "RESULTS.json")
     prev = []
-    if os.path.exists(out) and only:
-        prev = [r for r in json.load(open(out)) if r.get("property") not in only]
+    if os.path.exists(out) and (only or names):
+        done = {(r.get("kind"), r.get("name") or r.get("commit")) for r in results}
+        prev = [r for r in json.load(open(out)) if (r.get("kind"), r.get("name") or r.get("commit")) not in done]
     json.dump(prev + results, open(out, "w"), indent=1)
     missed = [r for r in results if r["outcome"].startswith("MISSED")]
     print("%d changes, %d detected, %d missed, %d other" % (len(results), sum(r["outcome"] == "detected" for r in results), len(missed), len(results) - len(missed) - sum(r["outcome"] == "detected" for r in results)))
